@@ -100,6 +100,7 @@ static int walk_ring(parsec_list_item_t *h, int *out)
 
 /* ---- sequential mode ------------------------------------------------------------------------------------- */
 static parsec_list_item_t *ring_head;      /* the free-standing sorted ring */
+static int where[MAXI + 1];                /* real whereabouts of every item: 0 free, 1 in the list, 2 in the ring */
 static FILE *out;
 
 static void log_walks(void)
@@ -135,7 +136,7 @@ static int run_seq(const char *hpath, const char *tpath)
     while( getline(&line, &cap, in) > 0 ) {
         char *save = NULL, *tok; int nop = 0;
         if( nexec ) fprintf(out, "{\"e\":\"Reset\"}\n");
-        setup(); ring_head = NULL;
+        setup(); ring_head = NULL; memset(where, 0, sizeof(where));
         for( tok = strtok_r(line, ";\n", &save); tok; tok = strtok_r(NULL, ";\n", &save) ) {
             char op[32], rs[128]; int x = 0, r[MAXI], nr, v, ret = 0, outr[MAXI], nout = 0;
             const char *via = "";
@@ -146,6 +147,21 @@ static int run_seq(const char *hpath, const char *tpath)
             nr = parse_ring(rs, r);
             v = (int)((nexec + nop) % 12);      /* which real function implements the abstract operation */
             nop++;
+            /* The behaviour comes from a model in which sort may order equal priorities (and choose the direction)
+             * differently from the real code, so a later pop can return another item than the model assumed: skip an
+             * operation whose items are not in the state the operation needs in the REAL run (nothing is logged). */
+            {
+                int j, ok = 1;
+                if( !strcmp(op, "remove") ) ok = where[x] == 1;
+                else if( !strcmp(op, "add_before") ) ok = (where[x] == 0) && nr == 1 && where[r[0]] == 1;
+                else if( !strncmp(op, "push_", 5) || !strcmp(op, "ring_push_sorted") ) ok = where[x] == 0;
+                else if( !strncmp(op, "chain_", 6) ) { ok = nr > 0; for( j = 0; j < nr; j++ ) if( where[r[j]] != 0 ) ok = 0; }
+                if( !ok ) continue;
+                if( !strncmp(op, "push_", 5) || !strcmp(op, "add_before") ) where[x] = 1;
+                else if( !strcmp(op, "ring_push_sorted") ) where[x] = 2;
+                else if( !strcmp(op, "remove") ) where[x] = 0;
+                else if( !strncmp(op, "chain_", 6) ) for( j = 0; j < nr; j++ ) where[r[j]] = 1;
+            }
 #define PICK(n) (v % (n))
             if( !strcmp(op, "push_front") ) {
                 switch( PICK(4) ) {
@@ -175,7 +191,7 @@ static int run_seq(const char *hpath, const char *tpath)
                 case 7: via = "parsec_fifo_try_pop"; it = parsec_fifo_try_pop(&list); break;
                 default: via = "parsec_fifo_nolock_pop"; it = parsec_fifo_nolock_pop(&list); break;
                 }
-                ret = idof(it);
+                ret = idof(it); where[ret] = 0;
             } else if( !strcmp(op, "pop_back") ) {
                 switch( PICK(6) ) {
                 case 0: via = "parsec_list_nolock_pop_back"; it = parsec_list_nolock_pop_back(&list); break;
@@ -185,7 +201,7 @@ static int run_seq(const char *hpath, const char *tpath)
                 case 4: via = "parsec_dequeue_try_pop_back"; it = parsec_dequeue_try_pop_back(&list); break;
                 default: via = "parsec_dequeue_nolock_pop_back"; it = parsec_dequeue_nolock_pop_back(&list); break;
                 }
-                ret = idof(it);
+                ret = idof(it); where[ret] = 0;
             } else if( !strcmp(op, "chain_front") ) {
                 parsec_list_item_t *rg = mkring(r, nr);
                 switch( PICK(4) ) {
@@ -208,6 +224,7 @@ static int run_seq(const char *hpath, const char *tpath)
                 if( PICK(2) ) { via = "parsec_list_unchain"; it = parsec_list_unchain(&list); }
                 else { via = "parsec_list_nolock_unchain"; it = parsec_list_nolock_unchain(&list); }
                 nout = walk_ring(it, outr);
+                { int j; for( j = 0; j < nout; j++ ) where[outr[j]] = 0; }
             } else if( !strcmp(op, "remove") ) {
                 via = "parsec_list_nolock_remove"; parsec_list_nolock_remove(&list, &items[x]->super);
             } else if( !strcmp(op, "add_before") ) {
